@@ -23,6 +23,8 @@ from cvxopt import solvers
 for name in ("conelp", "coneqp", "lp", "qp", "socp", "sdp", "cpl", "cp", "gp"):
     def mkwrap(orig, name):
         def w(*a, **k):
+            if os.environ.get("ONECASE_PROGRESS") and isinstance(k.get("options"), dict):
+                k["options"] = dict(k["options"], show_progress=True)
             try:
                 r = orig(*a, **k)
                 print("[%s] -> %s it=%s" % (name, r.get("status"), r.get("iterations")))
